@@ -4,6 +4,7 @@ import (
 	"context"
 	"fmt"
 	"os"
+	"slices"
 	"sync"
 	"time"
 
@@ -48,6 +49,21 @@ type (
 		debugFunc           DebugFunc
 		promptFunc          PromptFunc
 		promptMutex         sync.Mutex
+		// What reading each Taskfile gave, by location (see firstError)
+		results      map[string]*readResult
+		resultsMutex sync.Mutex
+	}
+	// readResult is what reading one Taskfile gave: the error of reading it or,
+	// for each of its includes in the order they are declared, the error of
+	// resolving the include or the location of the included Taskfile (empty for
+	// an optional include that was not found).
+	readResult struct {
+		err      error
+		includes []includeResult
+	}
+	includeResult struct {
+		err      error
+		location string
 	}
 )
 
@@ -56,6 +72,7 @@ type (
 func NewReader(opts ...ReaderOption) *Reader {
 	r := &Reader{
 		graph:               ast.NewTaskfileGraph(),
+		results:             map[string]*readResult{},
 		insecure:            false,
 		download:            false,
 		offline:             false,
@@ -188,9 +205,48 @@ func (o *promptFuncOption) ApplyToReader(r *Reader) {
 // returned immediately.
 func (r *Reader) Read(ctx context.Context, node Node) (*ast.TaskfileGraph, error) {
 	if err := r.include(ctx, node); err != nil {
+		// Several Taskfiles of the tree can be in error, and which of these
+		// errors the concurrent read meets first depends on scheduling. Report
+		// the one that reading the Taskfiles one after the other, in the order
+		// the includes are declared, meets first.
+		if first := r.firstError(node.Location(), nil, map[string]bool{}); first != nil {
+			return nil, first
+		}
 		return nil, err
 	}
 	return r.graph, nil
+}
+
+// firstError walks over what was found while reading (depth first, includes in
+// the order they are declared) and returns the first error: the error of
+// reading a Taskfile, of resolving one of its includes, or an include cycle.
+func (r *Reader) firstError(location string, stack []string, seen map[string]bool) error {
+	seen[location] = true
+	result := r.results[location]
+	if result == nil {
+		return nil
+	}
+	if result.err != nil {
+		return result.err
+	}
+	for _, include := range result.includes {
+		if include.err != nil {
+			return include.err
+		}
+		if include.location == "" {
+			continue
+		}
+		if include.location == location || slices.Contains(stack, include.location) {
+			return errors.TaskfileCycleError{Source: location, Destination: include.location}
+		}
+		if seen[include.location] {
+			continue
+		}
+		if err := r.firstError(include.location, append(stack, location), seen); err != nil {
+			return err
+		}
+	}
+	return nil
 }
 
 func (r *Reader) debugf(format string, a ...any) {
@@ -223,11 +279,17 @@ func (r *Reader) include(ctx context.Context, node Node) error {
 	}
 
 	// Read and parse the Taskfile from the file and add it to the vertex
+	result := &readResult{}
+	r.resultsMutex.Lock()
+	r.results[node.Location()] = result
+	r.resultsMutex.Unlock()
 	var err error
 	vertex.Taskfile, err = r.readNode(ctx, node)
 	if err != nil {
+		result.err = err
 		return err
 	}
+	result.includes = make([]includeResult, vertex.Taskfile.Includes.Len())
 
 	// Create an error group to wait for all included Taskfiles to be read
 	var g errgroup.Group
@@ -248,6 +310,10 @@ func (r *Reader) include(ctx context.Context, node Node) error {
 		vars.Merge(vertex.Taskfile.Vars, nil)
 		// Start a goroutine to process each included Taskfile
 		g.Go(func() error {
+			fail := func(err error) error {
+				result.includes[i].err = err
+				return err
+			}
 			cache := &templater.Cache{Vars: vars}
 			include = &ast.Include{
 				Namespace:      include.Namespace,
@@ -262,17 +328,17 @@ func (r *Reader) include(ctx context.Context, node Node) error {
 				Vars:           templater.ReplaceVars(include.Vars, cache),
 			}
 			if err := cache.Err(); err != nil {
-				return err
+				return fail(err)
 			}
 
 			entrypoint, err := node.ResolveEntrypoint(include.Taskfile)
 			if err != nil {
-				return err
+				return fail(err)
 			}
 
 			include.Dir, err = node.ResolveDir(include.Dir)
 			if err != nil {
-				return err
+				return fail(err)
 			}
 
 			includeNode, err := NewNode(entrypoint, include.Dir, r.insecure,
@@ -282,8 +348,9 @@ func (r *Reader) include(ctx context.Context, node Node) error {
 				if include.Optional {
 					return nil
 				}
-				return err
+				return fail(err)
 			}
+			result.includes[i].location = includeNode.Location()
 
 			// Recurse into the included Taskfile
 			if err := r.include(ctx, includeNode); err != nil {
